@@ -10,7 +10,8 @@ SILENT = {"C14_m6_threshold_off_by_one_lookup", "C16_m5_neutral_chunk_64", "C15_
           "C11_r5_revert_top_echelonize_alignment",
           # property-preserving changes that use constructs the simulated runtime has to understand (DESIGN.md section 10, corrections 24-25)
           "C16_n1_neutral_one_team_per_block_with_barrier", "C16_n2_neutral_dynamic_schedule_process_rows",
-          "C15_n1_neutral_thread_local_scratch_mul_naive", "C15_n2_neutral_memo_under_pthread_mutex"}
+          "C15_n1_neutral_thread_local_scratch_mul_naive", "C15_n2_neutral_memo_under_pthread_mutex",
+          "C14_n1_neutral_aligned_alloc", "C20_n1_neutral_aligned_alloc"}  # C11 aligned_alloc instead of _mm_malloc: the seam has to know the whole allocation family
 # C11_r5 reverts fix 57671ea (phase of the lookup tables in mzd_top_echelonize_m4ri).  Since fix f7723d3 the multi-table kernels read their
 # tables with unaligned loads, so either fix alone removes the fault: reverting only the first one no longer breaks C11.
 # C10_m5 (_mzd_mul_naive leaves a full last word of C uncleared) was listed here while the kernel was only reached through mzd_mul_naive / M4RM strips
